@@ -7,6 +7,9 @@ use crate::simio::Sim;
 use crate::spec::{self, BLK};
 use crate::world::*;
 
+pub static CRASH_SEEN: std::sync::Mutex<std::collections::BTreeSet<u64>> = std::sync::Mutex::new(std::collections::BTreeSet::new());
+pub static CRASH_IMAGES: std::sync::atomic::AtomicU64 = std::sync::atomic::AtomicU64::new(0);
+
 #[derive(Clone, Debug)]
 enum Ev {
     /// write of value v
@@ -219,6 +222,55 @@ pub fn judge(sc: &SchedScenario, mut x: Execution, want: &[&str]) -> SchedOutcom
         } else {
             out.push(viol(sc, &x, "C08", "flush-failed:concurrent".into(), format!("{:?}", fr.map(|r| r.map_err(|e| format!("{e:?}"))))));
         }
+    }
+
+    // ---- C04 (concurrent): every crash image of the concurrent phase's request log ----
+    if has("C04") {
+        let s = x.world.sim.borrow();
+        let wins = crate::crash::windows(&s, 0);
+        let mut images = 0u64;
+        for win in wins.iter().filter(|w| w.unsynced.iter().any(|id| *id >= x.log_start)) {
+            let mut bad: Option<(String, String)> = None;
+            win.enumerate(1 << 12, 3, |img, _| {
+                use std::hash::{Hash, Hasher};
+                let mut hh = std::collections::hash_map::DefaultHasher::new();
+                img.hash(&mut hh);
+                if !CRASH_SEEN.lock().unwrap().insert(hh.finish()) {
+                    return true;
+                }
+                images += 1;
+                let rep = crate::spec::check_image(img);
+                if let Some(p) = rep.first_problem(false) {
+                    bad = Some(p);
+                    return false;
+                }
+                true
+            });
+            if let Some((c, d)) = bad {
+                // the listed free-ordering finding: offending cluster punched by a discard of this execution
+                let cb = sc.img.cluster_bits;
+                let cl = d.split("host cluster 0x").nth(1).and_then(|t| t.split(' ').next()).and_then(|t| u64::from_str_radix(t, 16).ok());
+                let by_discard = cl.map_or(false, |cl| {
+                    s.reqs.iter().any(|r| {
+                        if let crate::simio::Kind::Zero { len } = &r.kind {
+                            let is_data_punch = *len == (1usize << cb);
+                            let c0 = r.off >> cb;
+                            is_data_punch && c0 == cl && (sc.setup.iter().chain(sc.tasks.iter().flatten()).any(|o| matches!(o, Op::Discard { .. })))
+                        } else {
+                            false
+                        }
+                    })
+                });
+                let class = if by_discard && (c == "under" || c == "double_ref") {
+                    format!("crash:cluster-freed-by-discard-not-yet-flushed:{}:concurrent", c)
+                } else {
+                    format!("crash:{}:concurrent:{}", c, sig)
+                };
+                out.push(viol(sc, &x, "C04", class, format!("a crash during the concurrent phase can leave an unsafe image: {}", d)));
+            }
+        }
+        let _ = images;
+        CRASH_IMAGES.fetch_add(images, std::sync::atomic::Ordering::Relaxed);
     }
 
     // ---- final observations ----
